@@ -585,6 +585,32 @@ def _after_failure(unit: Unit, ob: Obl, ctx: Ctx, st: State, goal, r: OblResult,
         spec["native"] = {"verdict": r.replay_verdict, "output": r.detail}
         with open(fname, "w") as fh:
             json.dump(spec, fh, indent=1, default=str)
+        if r.replay_verdict == "holds" and goal is not None:
+            # the concretisation of this model does not reproduce the failure (the abstraction of some value is lossy):
+            # ask the solver for different counter-models before giving up
+            for attempt in range(6):
+                m2 = _another_model(st, goal, r.model if attempt == 0 else m2, timeout_ms, blocked := (blocked if attempt else []))
+                if m2 is None:
+                    break
+                try:
+                    cur = ctx.I.st
+                    ctx.I.st = ctx.st0
+                    cz = Concretizer(ctx.I, m2)
+                    spec["args"] = {n: cz.value(v) for n, v in ctx.args.items()}
+                    spec["self"] = cz.value(ctx.self_val) if ctx.self_val is not None else None
+                finally:
+                    ctx.I.st = cur
+                with open(fname, "w") as fh:
+                    json.dump(spec, fh, indent=1, default=str)
+                p = subprocess.run(["/venv/bin/python", os.path.join(os.path.dirname(os.path.dirname(__file__)), "replay", "native.py"), fname],
+                                   capture_output=True, text=True, timeout=120, env=env)
+                if p.returncode == 1:
+                    r.replay_verdict = "violates"
+                    r.detail = (p.stdout or "").strip()[-600:]
+                    spec["native"] = {"verdict": "violates", "output": r.detail, "model_attempt": attempt + 2}
+                    with open(fname, "w") as fh:
+                        json.dump(spec, fh, indent=1, default=str)
+                    break
         if r.replay_verdict == "violates":
             r.status = "violation"
         elif r.replay_verdict == "holds":
@@ -609,3 +635,28 @@ def _model_text(m) -> dict:
     except Exception:
         pass
     return out
+
+
+def _another_model(st: State, goal, prev_model, timeout_ms, blocked):
+    """A counter-model of the same obligation that differs from the previous ones in some scalar symbol."""
+    s = z3.Solver()
+    s.set("timeout", min(timeout_ms, 5000))
+    for p in st.pc:
+        s.add(p)
+    for a in count_axioms(st):
+        s.add(a)
+    s.add(z3.Not(goal))
+    diffs = []
+    try:
+        for d in prev_model.decls()[:200]:
+            if d.arity() == 0 and d.range().kind() in (z3.Z3_INT_SORT, z3.Z3_BOOL_SORT, z3.Z3_DATATYPE_SORT):
+                diffs.append(d() != prev_model[d])
+    except Exception:
+        return None
+    if diffs:
+        blocked.append(z3.Or(*diffs))
+    for b in blocked:
+        s.add(b)
+    if s.check() == z3.sat:
+        return s.model()
+    return None
